@@ -682,9 +682,51 @@ def reuse_phase(ctx):
                     break
 
 
+def locality_phase(ctx):
+    """a delta at frame t is a weighted sum over the frames inside its window: one non-finite feature value (the log-energy
+    of a digitally silent frame is -inf when no floor is applied; a NaN from upstream) touches the deltas whose window
+    covers it and no others - every other delta is finite and equals the delta of the same features with that entry replaced"""
+    P = post_mod()
+    rs = np.random.RandomState(1502)
+    for bad in (-np.inf, np.inf, np.nan):
+        for nd, W, shape, axis, pos in ((1, 1, (40, 3), 0, (12, 2)), (2, 2, (3, 50), -1, (1, 25)), (1, 3, (2, 30, 2), 1, (0, 7, 1))):
+            x = rs.randn(*shape)
+            xb = x.copy()
+            xb[pos] = bad
+            case = dict(kind="locality", bad=repr(bad), num_deltas=nd, context_window=W, shape=list(shape), axis=axis, at=list(pos))
+            ctx.case(case, kind="locality")
+            try:
+                with np.errstate(all="ignore"):
+                    # blocks stacked along a NEW leading axis, so that the time axis keeps its length
+                    got = P.Deltas(nd, target_axis=0, concatenate=False, context_window=W).apply(xb, axis=axis)
+                    ref = P.Deltas(nd, target_axis=0, concatenate=False, context_window=W).apply(x, axis=axis)
+            except Exception as e:
+                ctx.violation(case, "a result", "%s: %s" % (type(e).__name__, str(e)[:150]), "Deltas.apply raises", tags=dict(clause="raises", where="locality"))
+                continue
+            reach = nd * W                      # the d-th delta filter has half-width d * W
+            t = np.arange(shape[axis % len(shape)])
+            far = np.abs(t - pos[axis % len(shape)]) > reach
+            # the lanes that do not hold the bad entry at all, and the far frames of the lane that does
+            if got.shape != ref.shape or got.shape != (nd + 1,) + tuple(shape):
+                ctx.violation(case, [nd + 1] + list(shape), list(got.shape), "output shape does not depend on the values", tags=dict(clause="shape", where="locality"))
+                continue
+            g = np.moveaxis(got, (axis % len(shape)) + 1, -1)
+            rf = np.moveaxis(ref, (axis % len(shape)) + 1, -1)
+            if g.shape != rf.shape:
+                ctx.violation(case, list(ref.shape), list(got.shape), "output shape does not depend on the values", tags=dict(clause="shape", where="locality"))
+                continue
+            gf, rff = g[..., far], rf[..., far]
+            if not (np.all(np.isfinite(gf)) and np.array_equal(gf, rff)):
+                ctx.violation(case, "finite and equal to the deltas without the bad entry, outside its reach of %d frames" % reach,
+                              "%d non-finite / differing entries" % int(np.sum(~np.isfinite(gf)) + np.sum(gf != rff)),
+                              "delta blocks are regression-filtered copies: a delta depends only on the frames inside its window",
+                              tags=dict(clause="value", where="locality"))
+
+
 def run(ctx, driver, with_driver=True):
     source_note(ctx)
     reuse_phase(ctx)
+    locality_phase(ctx)
     cases = cases_for(ctx)
     outs = [None] * len(cases)
     if with_driver:
